@@ -121,7 +121,26 @@ func allProps() []Prop {
 	gmeJobs := cat(gmeAll, gmeNew, gmeNotify)
 	gmeBounds := map[string]string{"endpoints": "3 endpoint names", "multiendpoints": "names default/read (+ one name without options, + one unknown name in RPC contexts); lists of 0..2 distinct endpoints", "initial configuration": "quick: default=[a,b], read=[b]; thorough also default=[a] alone and default=[a,b], read=[c,a]", "updates": "one fully symbolic UpdateMultiEndpoints (which MultiEndpoints are present, their lists, the default name, a dial failing at a symbolic position), then RPCs with 4 contexts, Invoke/NewStream, Close (close errors symbolic)", "timers": "recovery timeout and switching delay 0 (the timed behaviour is C13/C14)", "loop unroll": "6"}
 	gmeAssume := append(append([]string{}, commonAssume...), "*grpc.ClientConn is opaque: GetState/Close/Invoke/NewStream are harness summaries over ghost {ready, closed}; context.WithCancel is a harness summary (ghost spawn/cancel pairs stand for monitor goroutines); `go mc.monitor` is recorded, one monitor iteration is exercised by calling notify; protojson.Marshal and grpc.With* options are opaque", "'within bounded time' after a real connectivity change is the gRPC runtime's WaitForStateChange: not covered")
+	pb := "spanner_prober/prober"
+	pbJobs := []Job{
+		{Dir: pb, Harness: "prober", Entry: "VerifH_backoff", Logic: "QF_FPBV", Unroll: 10, TmoMs: 120000},
+		{Dir: pb, Harness: "prober", Entry: "VerifH_backoffconst", Logic: "QF_FPBV", Unroll: 12, TmoMs: 120000},
+		{Dir: pb, Harness: "prober", Entry: "VerifH_interval", Logic: "QF_FPBV"},
+		{Dir: pb, Harness: "prober", Entry: "VerifH_t4t7", Logic: "QF_UFBV", NoReplay: true},
+		{Dir: pb, Harness: "prober", Entry: "VerifH_payload", Flags: []string{"size=0"}},
+		{Dir: pb, Harness: "prober", Entry: "VerifH_payload", Flags: []string{"size=3"}},
+		{Dir: "spanner_prober", Harness: "spanner_prober", Entry: "VerifH_flags", Logic: "QF_UFFPBV", NoReplay: true},
+		{Dir: "spanner_prober", Harness: "spanner_prober", Entry: "P7_flags", NoReplay: true, ReplayEntry: "VerifH_flags"},
+	}
+	pbBounds := map[string]string{
+		"backoff":     "0 < base <= max < 2^53 ns (exact int<->float64 region), max <= 25*base (at most 8 multiplications by 1.5; covers the deployed 200ms/5s), retries in [0, 2^62); the deployed constants for every retry count; unwinding assertion at 10/12",
+		"headers":     "header and trailer metadata each nil / without the key / with 0..2 entries; entries arbitrary strings (HasPrefix, TrimPrefix, ParseInt as uninterpreted functions of the string)",
+		"flags":       "all flag values symbolic (strings as opaque ids, qps any float64 incl. NaN/Inf, ints 64-bit); the regular expressions are the literals found in validateFlags' SSA, translated to SMT-LIB RegLan and decided by cvc5 --strings-exp; the database-name format is the Sprintf constant of (*ProberOptions).databaseURI",
+		"payload":     "sizes 0 and 3; rand.Read yields arbitrary bytes; sha256 uninterpreted (ghost: the digest returned comes from a hash object that was written exactly the payload, once)",
+		"loop unroll": "6 unless stated",
+	}
 	return []Prop{
+		{ID: "C18", Jobs: pbJobs, Panics: true, Assume: append(append([]string{}, commonAssume...), "float64 arithmetic is IEEE-754 binary64 round-to-nearest-even in the solver (QF_FPBV); float64->int64 conversion out of range is treated as unspecified", "NOT covered: the regexp engine itself (only the literals are checked), SHA-256 and CRC arithmetic, ratios max/base > 25, base >= 2^53 ns"), Bounds: pbBounds},
 		{ID: "C12", Jobs: icptJobs, Panics: true, Progress: true, Lockset: true, Assume: commonAssume, Bounds: icptBounds},
 		{ID: "C15", Jobs: gmeJobs, Assume: gmeAssume, Bounds: gmeBounds},
 		{ID: "C16", Jobs: gmeJobs, Panics: true, Assume: gmeAssume, Bounds: gmeBounds},
